@@ -215,10 +215,6 @@ func (e *Encoder) EncodeMap(mes []*MapEntryEncoder) error {
 	//
 	// https://tools.ietf.org/html/rfc7049#section-2.1
 
-	if err := e.encodeMapHeader(len(mes)); err != nil {
-		return err
-	}
-
 	// Map keys must be sorted. Here copy all the keys into a slice for sorting.
 	// This is not very efficient, but it is expected that the number of keys is
 	// not so big in signedexchange usage.
@@ -228,18 +224,25 @@ func (e *Encoder) EncodeMap(mes []*MapEntryEncoder) error {
 		return bytes.Compare(entries[i].KeyBytes(), entries[j].KeyBytes()) < 0
 	})
 
-	var lastKeyBytes []byte
-	for _, entry := range entries {
-		if lastKeyBytes != nil && bytes.Equal(lastKeyBytes, entry.KeyBytes()) {
+	// Equal keys are neighbours after sorting. Refuse them before anything is
+	// written; this also covers empty keys and an entry that is passed twice.
+	for i := 1; i < len(entries); i++ {
+		if bytes.Equal(entries[i-1].KeyBytes(), entries[i].KeyBytes()) {
 			return ErrDuplicatedKey
 		}
-		lastKeyBytes = entry.KeyBytes()
+	}
 
-		if _, err := io.Copy(e.w, &entry.keyBuf); err != nil {
-			return err
-		}
-		if _, err := io.Copy(e.w, &entry.valueBuf); err != nil {
-			return err
+	if err := e.encodeMapHeader(len(mes)); err != nil {
+		return err
+	}
+	for _, entry := range entries {
+		for _, bs := range [][]byte{entry.keyBuf.Bytes(), entry.valueBuf.Bytes()} {
+			if len(bs) == 0 {
+				continue
+			}
+			if _, err := e.w.Write(bs); err != nil {
+				return err
+			}
 		}
 	}
 	return nil
